@@ -137,6 +137,20 @@ Definition jax_key (cplx : bool) (samples : list (list entry)) : jreport :=
              (omean (map j_rcs per))
              (match per with s :: _ => j_ndof s | [] => 0%Z end).
 
+(* jnp.std(rx) over the sample axis in red_chisq_stat:
+       rx = jnp.array([jnp.mean(rx), jnp.std(rx)])
+   jnp.std is the POPULATION standard deviation sqrt(mean(abs(x - x.mean())**2)) (ddof = 0);
+   it is modelled squared (no square root over the rationals); NaN if any sample is NaN. *)
+Definition ovar (l : list (option Qc)) : option Qc :=
+  match omean l with
+  | Some m => omean (map (option_map (fun v => (v - m) * (v - m))) l)
+  | None => None
+  end.
+
+(* reduced_chisq[1] ** 2 of one key *)
+Definition jax_rcs_var (cplx : bool) (samples : list (list entry)) : option Qc :=
+  ovar (map (fun l => j_rcs (jax_sample cplx l)) samples).
+
 (* ---- comparisons for the correspondence (exact rationals, explicit tolerance) ---- *)
 Definition ev (re im : Q) : entry := EV (Q2Qc re) (Q2Qc im).
 
@@ -167,3 +181,7 @@ Definition jax_ok (tol : Q) (cplx : bool) (samples : list (list entry))
   let r := jax_key cplx samples in
   oclose tol (jr_re r) mre && oclose tol (jr_im r) mim && oclose tol (jr_rcs r) rcs &&
   (jr_ndof r =? ndof)%Z.
+
+(* observed: reduced_chisq[1] ** 2 (None = NaN) *)
+Definition jax_var_ok (tol : Q) (cplx : bool) (samples : list (list entry)) (v : option Q) : bool :=
+  oclose tol (jax_rcs_var cplx samples) v.
